@@ -209,7 +209,23 @@ def run(F, R, tier):
                 if f["name"] in fields:
                     r1.site("%s.%s : %s" % (L.short(ty), f["name"], f["ty"]))
                     r1.require("&" in f["ty"] and "str" in f["ty"] and "String" not in f["ty"], (ty, f["name"], "borrowed"), "%s.%s is no longer a borrowed &str (%s): a re-serialised copy could be signed over" % (L.short(ty), f["name"], f["ty"]))
-    r1.floor(11)
+    # decode_b64 — what turns the signature segment into the bytes the verifier sees — is base64url, unpadded, and nothing else: one
+    # decoding of the whole input with Base::Base64Url, its result returned, its error returned.  A second, more lenient decoding
+    # (standard alphabet, padding) would give one signature several spellings: a mutated segment that still verifies.
+    bfn = B64 + "::decode_b64"
+    if r1.anchor(F.hir(bfn), bfn):
+        tabb = SR.Table(F, bfn, opaque=r"BaseEncoding::decode$|from_utf8$|BaseEncoding::decode_\w+$", rule=r1)
+        DATA_ = SR.param(sym.param_name(F, bfn, 0, "data"))
+        for q in tabb.paths:
+            ds = q.calls(r"BaseEncoding::decode(_\w+)?$")
+            one = len(ds) == 1 and "Base64Url" in str(ds[0].args[1]) and SR.derives(ds[0].args[0], DATA_)
+            if SR.is_success(q.ret) and not SR.is_failure(q.ret):
+                r1.require(one and q.succeeded(ds[0]) is True and SR.pure(q.ret, ("payload", ds[0].result.t, "Ok", 0)), (bfn, "base64url-only"),
+                           "decode_b64 returns something other than the one Base64Url decoding of its input (decodings on this path: %s)" % [str(e.args[1]) for e in ds])
+            else:
+                r1.require(len(ds) <= 1 and (not ds or one), (bfn, "base64url-only"), "decode_b64 tries another decoding after the Base64Url one failed (%s): the same bytes get several accepted spellings" % [str(e.args[1]) for e in ds])
+        r1.site("decode_b64: one Base64Url decoding of the input, returned or failed: %d path(s)" % len(tabb.paths))
+    r1.floor(12)
 
     # ------------------------------------------------------------------ R2 algorithm / b64 come from the protected header only
     r2 = R.rule("C01-R2", "T3", "every alg()/b64() read on the verification path has a receiver derived from the protected header")
